@@ -144,6 +144,9 @@ func (n *Node) Close() error {
 	return err
 }
 
+// CancelContext ends the context the instance was created under, without closing it.
+func (n *Node) CancelContext() { n.cancel() }
+
 type busOwner interface{ EventBus() event.Bus }
 
 // trackBus is called from the hub (see hub.at) to attribute emissions to buses.
